@@ -194,7 +194,13 @@ func (c *c06Conn) send(run *ev.Run, g genCmd, cs ev.Case) bool {
 	ctx, cancel := bg(10 * time.Second)
 	var code ipmi.CompletionCode
 	var err error
-	pv, st := safe(func() { code, err = c.conn.SendCommand(ctx, g.Cmd) })
+	pv, st := safe(func() {
+		if g.Call != nil {
+			code, err = g.Call(ctx, c.conn)
+			return
+		}
+		code, err = c.conn.SendCommand(ctx, g.Cmd)
+	})
 	cancel()
 	desc := fmt.Sprintf("%s want %v raw %x (in-session %v)", g.Label, g.Want, g.RawData, c.in)
 	if pv != nil {
@@ -379,6 +385,34 @@ func c06Exec(run *ev.Run, cs ev.Case) {
 			for lun := 0; lun < 4; lun++ {
 				cmd := &ipmi.GetSensorReadingCmd{Req: ipmi.GetSensorReadingReq{Number: uint8(n)}, OwnerLUN: ipmi.LUN(lun)}
 				if !do(genCmd{Cmd: cmd, NetFn: 4, CmdNo: 0x2d, LUN: byte(lun), Label: "sensorreading", Want: refcodec.Fields{"number": uint64(n)}, OkBody: []byte{byte(n), 0xc0, 0}}, fmt.Sprintf("%d/%d", n, lun)) {
+					return
+				}
+			}
+		}
+		if b.InSession {
+			// the same request as a sensor reader built from a Full Sensor Record issues it: the
+			// record's owner (BMC, satellite controller or system software), owner LUN, number
+			for i := 0; i < 1500; i++ {
+				rec := &ipmi.FullSensorRecord{}
+				rec.OwnerAddress = ipmi.Address(r.Intn(256))
+				rec.Channel = ipmi.Channel(r.Intn(16))
+				rec.OwnerLUN = ipmi.LUN(r.Intn(4))
+				rec.Number = uint8(r.Intn(256))
+				rec.AnalogDataFormat = ipmi.AnalogDataFormat(r.Intn(3))
+				rec.Linearisation = ipmi.Linearisation(r.Intn(12))
+				rec.Entity, rec.Instance = ipmi.EntityID(r.Intn(256)), ipmi.EntityInstance(r.Intn(128))
+				rec.M = 1
+				rd, rerr := bmc.NewSensorReader(rec)
+				if rerr != nil {
+					run.Violation("C06:sensorreading:reader-refused", fmt.Sprintf("NewSensorReader refused format %d linearisation %d: %v", rec.AnalogDataFormat, rec.Linearisation, rerr), cs, nil)
+					return
+				}
+				g := genCmd{Cmd: &ipmi.GetSensorReadingCmd{}, NetFn: 4, CmdNo: 0x2d, LUN: byte(rec.OwnerLUN), Label: "sensorreading", Want: refcodec.Fields{"number": uint64(rec.Number)}, OkBody: []byte{byte(i), 0xc0, 0},
+					Call: func(ctx context.Context, conn bmc.Connection) (ipmi.CompletionCode, error) {
+						_, err := rd.Read(ctx, conn.(bmc.Session))
+						return 0, err
+					}}
+				if !do(g, fmt.Sprintf("reader/%d/%d", rec.OwnerLUN, rec.OwnerAddress&1)) {
 					return
 				}
 			}
